@@ -1,6 +1,8 @@
 package sym
 
 import (
+	"math"
+	"encoding/json"
 	"fmt"
 	"go/types"
 	"strconv"
@@ -120,7 +122,7 @@ func (eng *Engine) sharedInit(path string) bool {
 	case "errors", "strconv", "unicode/utf8", "strings", "bytes", "internal/stringslite",
 		"path/filepath", "internal/filepathlite", "io/fs", "internal/oserror", "hash/fnv", "net/url", "sort", "io",
 		"math/bits", "slices", "cmp", "path", "hash", "unicode/utf16", "internal/itoa", "internal/byteorder",
-		"unicode", "regexp/syntax", "regexp", "time":
+		"unicode", "regexp/syntax", "regexp", "time", "math/rand", "net/mail", "mime", "encoding/base64", "encoding/binary", "net/textproto":
 		return true
 	}
 	return false
@@ -152,7 +154,55 @@ func init() {
 		"internal/bytealg.CountString":     inCountByte,
 		"bytes.Equal":                      inBytesEqual,
 		"internal/bytealg.Equal":           inBytesEqual,
+		// math on concrete floats (the schema library's number constraints); math's own init needs internal/cpu
+		"math.Min":   func(ex *Exec, fr *frame, args []Val) Val { return FloatV(math.Min(float64(args[0].(FloatV)), float64(args[1].(FloatV)))) },
+		"math.Max":   func(ex *Exec, fr *frame, args []Val) Val { return FloatV(math.Max(float64(args[0].(FloatV)), float64(args[1].(FloatV)))) },
+		"math.Floor": func(ex *Exec, fr *frame, args []Val) Val { return FloatV(math.Floor(float64(args[0].(FloatV)))) },
+		"math.Ceil":  func(ex *Exec, fr *frame, args []Val) Val { return FloatV(math.Ceil(float64(args[0].(FloatV)))) },
+		"math.Trunc": func(ex *Exec, fr *frame, args []Val) Val { return FloatV(math.Trunc(float64(args[0].(FloatV)))) },
+		"math.Abs":   func(ex *Exec, fr *frame, args []Val) Val { return FloatV(math.Abs(float64(args[0].(FloatV)))) },
+		"math.Pow":   func(ex *Exec, fr *frame, args []Val) Val { return FloatV(math.Pow(float64(args[0].(FloatV)), float64(args[1].(FloatV)))) },
+		"math.Log10": func(ex *Exec, fr *frame, args []Val) Val { return FloatV(math.Log10(float64(args[0].(FloatV)))) },
+		"math.IsNaN": func(ex *Exec, fr *frame, args []Val) Val { return Bool(math.IsNaN(float64(args[0].(FloatV)))) },
+		"math.IsInf": func(ex *Exec, fr *frame, args []Val) Val {
+			return Bool(math.IsInf(float64(args[0].(FloatV)), int(ex.concreteInt(args[1], "IsInf"))))
+		},
+		// the process environment is not an input of any property: every variable reads as unset
+		"os.Getenv":      func(ex *Exec, fr *frame, args []Val) Val { return mkStr("") },
+		"syscall.Getenv": func(ex *Exec, fr *frame, args []Val) Val { return Tuple{mkStr(""), False} },
+		// the local time zone is an environment input: UTC (as with TZ="")
+		"time.initLocal": func(ex *Exec, fr *frame, args []Val) Val {
+			g := ex.eng.Prog.ImportedPackage("time").Members["localLoc"].(*ssa.Global)
+			cell := ex.global(g)
+			st := (*cell).(StructV)
+			st[0] = mkStr("UTC")
+			return nil
+		},
 		"time.runtimeNano": func(ex *Exec, fr *frame, args []Val) Val { return Const(64, 1) },
+		// the wall clock is an environment input; the only use in the encoded code is the seed of the regex
+		// example generator (reggen), whose output is not part of any observed result
+		"time.now": func(ex *Exec, fr *frame, args []Val) Val {
+			return Tuple{Const(64, 1700000000), Const(32, 0), Const(64, 1)}
+		},
+		// json.Unmarshal of a concrete JSON string literal into a *string (schema library: regex constraint)
+		"encoding/json.Unmarshal": func(ex *Exec, fr *frame, args []Val) Val {
+			data, ok := toStr(args[0].(SliceV)).concrete()
+			itf, isI := args[1].(Iface)
+			if !ok || !isI {
+				panic(inconclusive{"json.Unmarshal: symbolic data or unsupported target"})
+			}
+			ptr, isP := itf.V.(*Val)
+			pt, isPT := itf.T.(*types.Pointer)
+			if !isP || !isPT || !types.Identical(pt.Elem(), types.Typ[types.String]) {
+				panic(inconclusive{"json.Unmarshal: only *string targets are encoded"})
+			}
+			var out string
+			if err := json.Unmarshal([]byte(data), &out); err != nil {
+				panic(inconclusive{"json.Unmarshal: error result not encoded: " + err.Error()})
+			}
+			ex.store(ptr, mkStr(out))
+			return Iface{}
+		},
 		"internal/bytealg.MakeNoZero": func(ex *Exec, fr *frame, args []Val) Val {
 			n := ex.concreteInt(args[0], "MakeNoZero")
 			cells := make([]Val, n)
@@ -238,7 +288,16 @@ func init() {
 			}
 			return nil
 		},
+		// sync.Pool as one goroutine sees it when nothing else runs: Get hands back the object Put last
+		// (the per-P private slot), otherwise New(). Stale-state and use-after-Put mistakes are thereby
+		// visible to a sequential harness, and reproduce natively in a single goroutine.
 		"(*sync.Pool).Get": func(ex *Exec, fr *frame, args []Val) Val {
+			pc := args[0].(*Val)
+			if l := ex.pools[pc]; len(l) > 0 {
+				v := l[len(l)-1]
+				ex.pools[pc] = l[:len(l)-1]
+				return v
+			}
 			p := (*args[0].(*Val)).(StructV)
 			nf := p[len(p)-1] // the New field
 			switch f := nf.(type) {
@@ -249,9 +308,24 @@ func init() {
 			}
 			return ex.call(fr, nf, nil)
 		},
-		"(*sync.Pool).Put": func(ex *Exec, fr *frame, args []Val) Val { return nil },
+		"(*sync.Pool).Put": func(ex *Exec, fr *frame, args []Val) Val {
+			if itf, ok := args[1].(Iface); ok && itf.T == nil {
+				return nil
+			}
+			if ex.pools == nil {
+				ex.pools = map[*Val][]Val{}
+			}
+			pc := args[0].(*Val)
+			ex.pools[pc] = append(ex.pools[pc], args[1])
+			return nil
+		},
 		"regexp.MustCompile": func(ex *Exec, fr *frame, args []Val) Val {
 			pat := concreteStr(args[0], "regexp pattern")
+			if pat != `\s+` {
+				// any other pattern: interpret the real regexp package (needs its initialisers: shared init set)
+				ex.runBodyArgs(ex.eng.funcByName("regexp", "MustCompile"), args)
+				return ex.lastResult
+			}
 			cell := new(Val)
 			*cell = &Opaque{Kind: "regexp", Data: pat}
 			return cell
@@ -813,7 +887,12 @@ func isSpaceTerm(b *Term) *Term {
 }
 
 func inRegexpReplaceAllString(ex *Exec, fr *frame, args []Val) Val {
-	re := (*args[0].(*Val)).(*Opaque)
+	re, isOpaque := (*args[0].(*Val)).(*Opaque)
+	if !isOpaque {
+		m := ex.eng.lookupMethod(types.NewPointer(ex.eng.Prog.ImportedPackage("regexp").Type("Regexp").Type()), nil, "ReplaceAllString")
+		ex.runBodyArgs(m, args)
+		return ex.lastResult
+	}
 	if re.Data.(string) != `\s+` {
 		panic(inconclusive{"regexp pattern not supported: " + re.Data.(string)})
 	}
